@@ -425,3 +425,93 @@ def scenarios():
     return _base_scn_t() + [text_subpacket('Policy', 'uri'), text_subpacket('PreferredKeyServer', 'uri'), text_subpacket('RegularExpression', 'regex'),
                             text_subpacket('SignersUserID', 'userid'),
                             text_subpacket('ReasonForRevocation', 'string', lead=1, enum='pgpy.constants.RevocationReason')]
+
+
+def trust_signature():
+    label = 'C02/subpackets.TrustSignature'
+
+    def gen(repo):
+        cls = SP + 'TrustSignature'
+        obls, funcs, paths = [], [], 0
+        r = scn.Run(repo, cls, '__bytearray__', label + '[bytes]')
+        ex, st = r.ex, r.st
+        HDR = z3.Const('SUBPACKET_HEADER', B)
+        LEVEL, AMOUNT = z3.Ints('level amount')
+        st.pc += [LEVEL >= 0, LEVEL < 256, AMOUNT >= 0, AMOUNT < 256]
+        r.set('sp', '_level', E.VInt(LEVEL))
+        r.set('sp', '_amount', E.VInt(AMOUNT))
+        _hdr_hooks(r, HDR)
+        for pi, (s, v) in enumerate(r.call(E.VObj(cls, 'sp'), [])):
+            paths += 1
+            if isinstance(v, E.Raise):
+                r.oblige(s, 'safety(%s)/p%d' % (v.exc, pi), z3.BoolVal(False), v.where)
+                continue
+            r.oblige(s, 'rfc4880-5.2.3.13:level-octet,amount-octet/p%d' % pi, ex.seq(v, s) == cat(HDR, U(LEVEL), U(AMOUNT)))
+        res = r.result()
+        obls += res['obligations']
+        funcs += res['funcs']
+        r2 = scn.Run(repo, cls, 'parse', label + '[parse]')
+        ex, st = r2.ex, r2.st
+        OLD = z3.Const('RECEIVED', B)
+        st.pc += [z3.Length(OLD) >= 2]
+        st.facts += [z3.And(OLD[i] >= 0, OLD[i] < 256) for i in range(2)]
+        buf = ex.new_buf(st, OLD)
+        _hdr_hooks(r2, z3.Const('H', B))
+        for pi, (s, v) in enumerate(r2.call(E.VObj(cls, 'sp'), [buf])):
+            paths += 1
+            if isinstance(v, E.Raise):
+                r2.oblige(s, 'safety(%s)/p%d' % (v.exc, pi), z3.BoolVal(False), v.where)
+                continue
+            r2.oblige(s, 'level-and-amount-are-the-two-octets/p%d' % pi,
+                      z3.And(ex.as_int(s.heap.get(('sp', '_level'))) == OLD[0], ex.as_int(s.heap.get(('sp', '_amount'))) == OLD[1]))
+            r2.oblige(s, 'consumes-two-octets/p%d' % pi, s.heap[buf.cell] == z3.Extract(OLD, 2, z3.Length(OLD) - 2))
+        res2 = r2.result()
+        return {'obligations': obls + res2['obligations'], 'funcs': funcs + res2['funcs'], 'paths': paths}
+    return Scenario(label, SP + 'TrustSignature', gen, props=('C02', 'C08'))
+
+
+def revocation_key_parse():
+    """RevocationKey.parse (RFC 4880 5.2.3.15): class octet, algorithm octet (any value: unknown ids are kept as numbers), 20-octet fingerprint"""
+    label = 'C05/subpackets.RevocationKey[parse]'
+
+    def gen(repo):
+        cls = SP + 'RevocationKey'
+        r2 = scn.Run(repo, cls, 'parse', label)
+        ex, st = r2.ex, r2.st
+        OLD = z3.Const('RECEIVED', B)
+        st.pc += [z3.Length(OLD) >= 22]
+        st.facts += [z3.And(OLD[i] >= 0, OLD[i] < 256) for i in range(22)]
+        buf = ex.new_buf(st, OLD)
+        _hdr_hooks(r2, z3.Const('H', B))
+        r2.set('sp', '_keyclass', ex.new_list(st, []))
+
+        def to_member(ex, st, c, a):
+            known = z3.Bool('known_algorithm_%d' % len(st.pc))
+            bad = st.clone()
+            st.pc.append(known)
+            bad.pc.append(z3.Not(known))
+            return [(st, E.VInt(ex.as_int(a[0]), enum='pgpy.constants.PubKeyAlgorithm')), (bad, E.Raise('ValueError', 0))]
+        r2.hook('pgpy.constants.PubKeyAlgorithm', '__call__', to_member)
+        r2.hook('pgpy.types.Fingerprint', '__call__', lambda ex, st, c, a: [(st, E.VExt('Fingerprint', (a[0],)))])
+        for pi, (s, v) in enumerate(r2.call(E.VObj(cls, 'sp'), [buf])):
+            if isinstance(v, E.Raise):
+                r2.oblige(s, 'every-class-and-algorithm-octet-is-accepted(%s)/p%d' % (v.exc.split(':')[0], pi), z3.BoolVal(False), v.where)
+                continue
+            alg = s.heap.get(('sp', '_algorithm'))
+            r2.oblige(s, 'algorithm-is-the-second-octet/p%d' % pi, ex.as_int(alg) == OLD[1] if isinstance(alg, E.VInt) else z3.BoolVal(False))
+            r2.oblige(s, 'consumes-22-octets/p%d' % pi, s.heap[buf.cell] == z3.Extract(OLD, 22, z3.Length(OLD) - 22))
+            kc = s.heap.get(('sp', '_keyclass'))
+            items = ex.items(kc, s) if isinstance(kc, E.VList) else None
+            RKC = repo.enum_members('pgpy.constants.RevocationKeyClass')
+            for name, val in RKC.items():
+                held = z3.BoolVal(items is not None and any(isinstance(x, E.VInt) and x.conc() == val for x in items))
+                r2.oblige(s, 'class-%s-held-iff-its-bit-is-set-in-the-first-octet/p%d' % (name, pi), held == ((OLD[0] / val) % 2 == 1))
+        return r2.result()
+    return Scenario(label, SP + 'RevocationKey', gen, props=('C05', 'C08', 'C02'))
+
+
+_base_scn_tr = scenarios
+
+
+def scenarios():
+    return _base_scn_tr() + [trust_signature(), revocation_key_parse()]
